@@ -121,7 +121,12 @@ func hConfig2() (int, int, int) {
 		}
 		return 1, 2, 2
 	}
-	return hConfig()
+	nprof := 4
+	if MaskTotalBits == 64 {
+		nprof = 2
+	}
+	c := [4][3]int{{0, 1, 1}, {1, 2, 2}, {2, 3, 1}, {3, 2, 2}}[vChoice("config", 4)]
+	return c[0] % nprof, c[1], c[2]
 }
 
 // HC07_Before: the filter is registered before any entity or table exists.
